@@ -2,6 +2,16 @@
 HOOK_COMMITS = ["645c65a", "e34ba59", "f51c5d9", "f6ed18e", "079d75a", "f4d99a1"]
 NOT_APPLICABLE = {}
 LEVELS = {
+    "C04": {
+        "text": "Proof: C04_shares_iff and C04_keys_iff are IFF characterisations of the combined gossip validators (envelope check + "
+                "handler validator) for every receiver database, configuration and message, clause by clause as the property states them; "
+                "C04_no_effect for the receive path. The model is tied to keyshare.go / key.go / messages.go / messaging.go by running the "
+                "real combined validator over the PostgreSQL fake on the full mutation catalogue of the property; verdicts are compared "
+                "with the model and with the statement evaluated directly.",
+        "design_ref": "DESIGN.md §4 C04",
+        "note": "Trusted: Lean kernel; correspondence harness incl. noderig/pgfake/kdb; shcrypto verification as oracle for the per-share bits.",
+        "technique": "Lean 4 iff-theorems over an abstract verification predicate + differential runs of the real combined validator over an in-process PostgreSQL fake with a full mutation catalogue",
+    },
     "C02": {
         "text": "Proof: C02_time / C02_event (every triggered identity satisfies the release condition: strictly later block timestamp, "
                 "activation block reached, member of a keyper set whose newest eon succeeded, not marked decrypted / fired and undecrypted), "
